@@ -122,6 +122,11 @@ ENTRIES.append(('C20', 'time-fraction-zeros', ['time-fraction-zeros'], "('c20-st
 _WRAP_WHAT = ("CachingStreamWrapper (used for every non-seekable substrate) drops its cache and renumbers positions from 0 when the mark is set more than io.DEFAULT_BUFFER_SIZE octets into the cache; the decoder keeps absolute positions (original_position, bytesRead) of enclosing definite-length elements across that point")
 _WRAP_WHY = "pinned by tests/codec/test_streaming.py CachingStreamWrapperTestCase.testMarkedPositionResets, which asserts markedPosition == 0 and an empty cache after the drop"
 EXTRA = [
+ {'id': 'KF-C14-real-constraints-see-the-internal-tuple', 'status': 'open', 'property': 'C14',
+  'symptom': ['real:constraint-evaluation-raised:TypeError', 'real:rejects-inside', 'real:accepts-outside'], 'zone': ['domain:real'],
+  'what': 'the constraint of a REAL type is evaluated against the internal (mantissa, base, exponent) tuple, not against the number: a ValueRangeConstraint raises TypeError from its comparison for every finite value (REAL (0..3) cannot hold 2.5), a SingleValueConstraint of numbers never matches',
+  'why_open': "every constraint class receives the type's internal representation by design (SimpleAsn1Type.__init__ passes prettyIn(value)); making REAL constraints numeric means changing that contract or the representation of Real, not a small change",
+  'witness': "('c14-real', ('range', 0, 5), 2.5)"},
  {'id': 'KF-C04-real-default-float-history', 'status': 'open', 'property': 'C04',
   'symptom': ['*:bytes-differ-between-histories:*'], 'zone': ['default-real-huge'],
   'what': FAMILIES['real-default-float']['what'] + ' -- seen here as: float(mantissa * base**exponent) underflows to 0.0 or not depending on how the decoder split the same number into mantissa and exponent, so one abstract value is omitted as the default after one history (decoded from a BER form with a scaled mantissa) and emitted after another',
